@@ -11,6 +11,7 @@ import (
 	"compress/lzw"
 	"compress/zlib"
 	"encoding/binary"
+	"fmt"
 	"hash/adler32"
 	"hash/crc32"
 	"image"
@@ -176,6 +177,9 @@ func Payload(t *rapid.T, label string, max int) []byte {
 	case 12, 13: // "book": lines drawn from a small pool, so that long matches occur at every distance of the
 		// 32 KiB window and (when the caller allows > 32 KiB) across every lap of a ring buffer of history
 		if max >= 70000 && rapid.IntRange(0, 2).Draw(t, label+"_big") > 0 {
+			if rapid.Bool().Draw(t, label+"_straddle") {
+				return Straddle(t, label, max)
+			}
 			return Book(t, label, 33000, max)
 		}
 		return Book(t, label, 200, min(6000, max))
@@ -191,6 +195,41 @@ func Payload(t *rapid.T, label string, max int) []byte {
 		}
 		return out
 	}
+}
+
+// Straddle returns 40000..hi bytes of noise with planted repeats whose SOURCE
+// straddles every multiple of 32768 (the lap boundary of a 32 KiB history ring
+// buffer) at several distances, so that an LZ77 encoder emits back-references
+// that a streaming decoder must serve from the two ends of its history.
+func Straddle(t *rapid.T, label string, hi int) []byte {
+	n := hi - rapid.IntRange(0, max(hi-40000, 0)).Draw(t, label+"_short") // (rapid favours small values: long payloads are the common case)
+	var out []byte
+	if rapid.IntRange(0, 3).Draw(t, label+"_bg") == 3 {
+		out = pseudo(rapid.Uint32().Draw(t, label+"_seed"), n, 256) // noise: only encoders that search exhaustively find the repeats
+	} else {
+		out = Book(t, label+"_bgbook", n, n) // compressible background keeps every encoder matching
+	}
+	noise := pseudo(rapid.Uint32().Draw(t, label+"_useed"), 4096, 256)
+	ni := 0
+	for k := 1; k*32768 < n; k++ {
+		for _, d := range []int{300, 1000, 4100, 8200, 16400, 30000} {
+			if rapid.IntRange(0, 2).Draw(t, fmt.Sprintf("%s_use%d_%d", label, k, d)) == 2 { // (planting is the common case)
+				continue
+			}
+			l := 258 - rapid.IntRange(0, 238).Draw(t, fmt.Sprintf("%s_len%d_%d", label, k, d))
+			src := k*32768 - 1 - rapid.IntRange(0, l-2).Draw(t, fmt.Sprintf("%s_off%d_%d", label, k, d))
+			pos := k*32768 + d + rapid.IntRange(0, 40).Draw(t, fmt.Sprintf("%s_jit%d_%d", label, k, d))
+			if src < 0 || pos+l > n || pos < src+l {
+				continue
+			}
+			if d == 300 && ni+l <= len(noise) {
+				copy(out[src:src+l], noise[ni:ni+l]) // a unique segment across the boundary
+				ni += l
+			}
+			copy(out[pos:pos+l], out[src:src+l])
+		}
+	}
+	return out
 }
 
 // Book returns lo..hi bytes made of lines drawn from a small pool of random lines.
@@ -250,7 +289,7 @@ type Encoded struct {
 
 // Deflate encodes with compress/flate at a drawn level with drawn Flush points.
 func Deflate(t *rapid.T, payload []byte, label string) ([]byte, []string) {
-	level := rapid.SampledFrom([]int{-2, 0, 1, 6, 9}).Draw(t, label+"_level")
+	level := rapid.SampledFrom([]int{6, 1, 9, -2, 0}).Draw(t, label+"_level")
 	var buf bytes.Buffer
 	w, _ := flate.NewWriter(&buf, level)
 	feats := []string{"level" + itoa(level)}
@@ -288,7 +327,7 @@ func Compressed(t *rapid.T, payload []byte, label string) Encoded {
 		d, f := Deflate(t, payload, label)
 		return Encoded{Pkg: "deflate", Data: d, Original: payload, Features: f}
 	case 1:
-		level := rapid.SampledFrom([]int{-2, 0, 1, 6, 9}).Draw(t, label+"_level")
+		level := rapid.SampledFrom([]int{6, 1, 9, -2, 0}).Draw(t, label+"_level")
 		var buf bytes.Buffer
 		w, _ := zlib.NewWriterLevel(&buf, level)
 		feats := []string{"level" + itoa(level)}
@@ -304,7 +343,7 @@ func Compressed(t *rapid.T, payload []byte, label string) Encoded {
 		w.Close()
 		return Encoded{Pkg: "zlib", Data: buf.Bytes(), Original: payload, Features: feats}
 	case 2, 3:
-		level := rapid.SampledFrom([]int{-2, 0, 1, 6, 9}).Draw(t, label+"_level")
+		level := rapid.SampledFrom([]int{6, 1, 9, -2, 0}).Draw(t, label+"_level")
 		var buf bytes.Buffer
 		w, _ := gzip.NewWriterLevel(&buf, level)
 		feats := []string{"level" + itoa(level)}
